@@ -29,7 +29,7 @@ def plan_C09(tier):
         "subs": [
             {"name": "fault_free", "cfg": {"fault_free": True, "bracket_rate": 0.0}, "runs": n // 3},
             {"name": "faults", "cfg": {"bracket_rate": 0.05}, "runs": n - n // 3},
-        ],
+        ] + ([{"name": "long_histories", "cfg": {"bracket_rate": 0.02, "force": {"nops": 80, "restart_rate": 0.35}}, "runs": n // 10}] if tier == "thorough" else []),
         "budget_s": scale(tier, 50, 3000),
     }
 
@@ -63,7 +63,8 @@ def plan_C08(tier):
         "subs": [
             {"name": "fault_free", "cfg": {"fault_free": True}, "runs": n // 4, "batch": 20},
             {"name": "faults", "cfg": {}, "runs": n - n // 4, "batch": 20},
-        ],
+        ] + ([{"name": "long_histories", "cfg": {"force": {"nops": 90, "prelude": 300, "state_rate": 0.2, "variant_rate": 0.25, "repeat_rate": 0.15}},
+               "runs": n // 10, "batch": 10}] if tier == "thorough" else []),
         "budget_s": scale(tier, 50, 3300),
     }
 
@@ -94,7 +95,8 @@ def plan_C20(tier):
         "backends": ["c", "py"],
         "subs": [
             {"name": "schedules", "cfg": {}, "runs": n, "batch": 25},
-        ],
+        ] + ([{"name": "many_threads", "cfg": {"force": {"nthreads": 5, "ops_per_thread": 12, "long_rate": 0.3, "repeat_rate": 0.25}},
+               "runs": n // 10, "batch": 10}] if tier == "thorough" else []),
         "budget_s": scale(tier, 50, 3300),
     }
 
